@@ -239,14 +239,7 @@ func c06eRun(c c06eCase, res map[string]any) {
 	case r := <-tch:
 		conn, err = r.conn, r.err
 	case <-time.After(20 * time.Second):
-		ob.mu.Lock()
-		dials := ob.dials
-		ob.mu.Unlock()
-		if dials == 0 && !c.FastOpen {
-			// loopback, handshake done, the whole request written 20 s ago, and the server has not even dialled
-			fail("Client.TCP() got no response within 20 s and the server never dialled the target: the request the client wrote was not accepted as complete")
-			return
-		}
+		// (no verdict: the property has no liveness clause; level (a) judges what the request phase consumes)
 		skip("TCP()", errors.New("no response within 20 s"))
 		return
 	}
